@@ -211,6 +211,16 @@ fn completion_clause(u: &Unit, unit: &Value, p: &bpaf::OptionParser<Val>, argv: 
         },
         0,
     );
+    // a level whose last positional is repeated still expects positional data there: a typed word
+    // that looks like a name is data too, the placeholder of the positional stays
+    if let Tail::Pos(items) = &u.level.tail {
+        if dd == 0 && u.decor != 2 && !u.literal && typed.starts_with('-') && items.last().map_or(false, |i| i.kind == PosKind::Many && i.strict != Strict::NonStrict) && rows.metas.is_empty() {
+            let mut sig = BTreeMap::new();
+            sig.insert("clause".to_string(), "completion-placeholder".to_string());
+            ctx.violation(Violation { property: "C09".into(), rule: "completion-right-of-the-separator-is-positional".into(), sig, unit: unit.clone(), case: json!({"argv": argv, "completion": true}), expected: "the placeholder of the repeated positional among the candidates (a dash-looking word right of `--` is data)".into(), observed: format!("{:?}", text), size: argv.len() * 1000 });
+            return;
+        }
+    }
     match rows.substs.iter().find(|sb| names.contains(sb) && **sb != typed) {
         None => ctx.count("completion-right-of-the-separator-judged"),
         Some(sb) => {
